@@ -113,7 +113,7 @@ def _sym_container(V, kind):
 
 
 for _k in ('list', 'set', 'vtuple', 'tuple', 'dict', 'optlist', 'unionlist', 'union-int-list', 'union-pos-str'):
-    ob('sym/' + _k, marks=['accept'] if _k == 'unionlist' else ['accept', 'reject'], budget=(160 if ('list' in _k and _k != 'list') or _k == 'set' else 100, 500),
+    ob('sym/' + _k, marks=['accept'] if _k == 'unionlist' else ['accept', 'reject'], exhaustive=(True, False), budget=(160 if ('list' in _k and _k != 'list') or _k == 'set' else 100, 500),
        bounds='%s over Rule[int](ge=a), a in -3..3 symbolic; input list / tuple / set (dict for dict; also a scalar for the '
               'staged unions) of n <= 2 (1 for dict and the staged unions; 3 thorough) elements: solver int | bool | None | "5" | 1.5 | "x"; flags solver-picked; '
               'staged union resolution: the stage that accepted x must map its own output to itself' % _k,
